@@ -38,7 +38,8 @@ REQUIRED_OBS = ["shutdown_instants_judged", "during_backoff", "during_handshake"
                 "during_connect_in_flight", "steady_state", "reinit_ok", "socket_level"]
 BUDGET = {"quick": 110, "thorough": 1500}
 
-TIMELINES = ["cold_refuse", "latency3", "handshake", "handshake_bytes", "steady", "backoff",
+TIMELINES = ["cold_refuse", "latency3", "handshake", "handshake_bytes", "slow_handshake",
+             "steady", "backoff",
              "hb_reset", "wfault", "subs", "sock_pending", "sock_backoff", "sock_stalled"]
 
 
@@ -96,6 +97,10 @@ async def drive(tl, gen, loop, net, log, ctx):
     elif tl == "handshake_bytes":
         knobs = C.Knobs(latency=0.1, segmenter=lambda raw: [(-1, raw[i:i + 3])
                                                            for i in range(0, len(raw), 3)])
+    elif tl == "slow_handshake":
+        # every step answered after a second: init() gives up at 5 s, the handshake completes
+        # in the background at 6 s and monitoring starts - shutdown may come at any point
+        knobs = C.Knobs(latency=1.0)
     elif tl == "hb_reset":
         knobs = C.Knobs(answer_heartbeat=lambda n, t: 0.0 if n == 1 else None)
     w = AW.ApiWorld(gen, loop, net, log, installation(gen), knobs)
@@ -105,6 +110,8 @@ async def drive(tl, gen, loop, net, log, ctx):
     ctx["init_task"] = it
     if tl in ("cold_refuse", "latency3", "handshake", "handshake_bytes"):
         await asyncio.sleep(7.0)
+    elif tl == "slow_handshake":
+        await asyncio.sleep(9.0)
     elif tl == "hb_reset":
         # the heartbeat timeout resets the connection at T0+330 (connect latency 0.4 s)
         await asyncio.sleep(329.0)
